@@ -97,8 +97,9 @@ P = {
        "in-range negative indices, strict-DER ECDSA over the Lean curve): eval_equiv_real/verify_equiv_real with "
        "CodesepInsensitive and HashesOK discharged. Remaining hypotheses: transaction fields in wire range, index "
        "not below −|vin| (D7), admissible flags (D6), EvalScript caller stack ≤ 1000 items. The signature check is "
-       "the same function on both sides (the property's strict-DER/SEC1 domain). T1: all 256 opcodes, names, "
-       "disabled set, limits. T2: every 1-opcode program × ~60 stacks × 12 flag sets, grammar programs with real "
+       "the same function on both sides (the property's strict-DER/SEC1 domain). T1: opcode values, disabled set, "
+       "numeric sets, limits (display names: evidence only). T2 compares the VERDICT (accepted / fails; EvalScript: "
+       "fails vs the exact final stack) — which error is raised is C07's business: every 1-opcode program × ~60 stacks × 12 flag sets, grammar programs with real "
        "signatures, the multisig signature-list matrix, limit probes, multi-call histories.",
   note=TB + "OpenSSL's tolerant DER/pubkey parsing is outside the model (the property's stated domain restriction).",
   tech="Lean 4 proof (forward simulation model ↔ reference interpreter, induction over the operation list) + tables + correspondence (exhaustive short programs)"),
@@ -113,11 +114,13 @@ P = {
        "is C09's verify_keeps_objects and T2. T2: random and structure-aware mutated byte strings (0..10 001 bytes, "
        "truncated pushes at every position, P2SH with garbage redeem scripts), the signature/pubkey operand matrix "
        "(every truncation point, every short string), mutable and immutable transactions, indices incl. wrapping "
-       "negatives; exception family AND captured state (stack, altstack, nOpCount) compared; txTo and scripts "
-       "compared before/after. Transactions whose fields are outside the wire range (accepted by the public "
+       "negatives; compared: the outcome family (normal return / validation-error family / anything else = "
+       "violation), the limit clause evaluated on Python's own captured state (e.stack, e.altstack, e.nOpCount), "
+       "txTo / scripts / the caller's stack list unchanged, and inside C06's domain the verdict; the exact captured "
+       "state is printed as a diagnostic only. Transactions whose fields are outside the wire range (accepted by the public "
        "constructors) make struct.error / ValueError escape from a signature check that serialises the field: "
        "KNOWN FINDING D21 (the model mirrors it, the containment theorems carry FieldsWF; generated and recognised "
-       "only when implementation = model = that escape and the fields are out of range). loop_append / "
+       "only when both sides escape and the fields are out of range; a contained implementation is never an alarm). loop_append / "
        "state_limits_every_iteration lift the tight limits to the head of every iteration reached.",
   note=TB + "OpenSSL's tolerant DER parsing: where the library accepts what the strict model rejects only containment is compared.",
   tech="Lean 4 proof (dead-branch / invariant by induction over interpreter steps) + correspondence on arbitrary byte strings"),
